@@ -613,6 +613,8 @@ func (e *Exec) eqNil(a, b Value) *Term {
 			return BoolC(v.IsNil())
 		case *BytesV:
 			return BoolC(v == nil || v.nilb)
+		case *AbufV:
+			return tFalse
 		case MapV:
 			return BoolC(v.m == nil)
 		case ChanV:
@@ -902,6 +904,11 @@ func (e *Exec) sliceOp(th *Thread, fr *Frame, in *ssa.Slice) Value {
 		if in.Low == nil && in.High == nil {
 			return c
 		}
+		if c != nil && !c.nilb && c.n != nil {
+			return e.abufSlice(th, fr, in, c.n)
+		}
+	case *AbufV:
+		return e.abufSlice(th, fr, in, c.n)
 	}
 	panic(e.unsupported(fmt.Sprintf("Slice on %T", x)))
 }
@@ -1045,6 +1052,28 @@ func (e *Exec) selectInstr(th *Thread, fr *Frame, in *ssa.Select) Value {
 	return res
 }
 
+// abufSlice: b[lo:hi] on a buffer of symbolic length n.
+func (e *Exec) abufSlice(th *Thread, fr *Frame, in *ssa.Slice, n *Term) Value {
+	lo, hi := IntC(0), n
+	if in.Low != nil {
+		lo = e.eval(fr, in.Low).(*Term)
+	}
+	if in.High != nil {
+		hi = e.eval(fr, in.High).(*Term)
+	}
+	if lo.w != 64 {
+		lo = SExt(lo, 64)
+	}
+	if hi.w != 64 {
+		hi = SExt(hi, 64)
+	}
+	bad := Or(BVCmp("bvslt", lo, IntC(0)), BVCmp("bvslt", hi, lo), BVCmp("bvslt", n, hi))
+	if e.verdictOrConcrete(th, "slice-bounds-out-of-range", bad) {
+		e.raise(th, "slice-bounds-out-of-range", nil)
+	}
+	return &AbufV{n: BVBin("bvsub", hi, lo)}
+}
+
 // ---- builtins -------------------------------------------------------------
 
 func (e *Exec) builtin(th *Thread, name string, args []Value, ats []types.Type) Value {
@@ -1069,6 +1098,8 @@ func (e *Exec) builtin(th *Thread, name string, args []Value, ats []types.Type) 
 				return c.str.n
 			}
 			return e.jsonLen(c)
+		case *AbufV:
+			return c.n
 		case MapV:
 			if c.m == nil {
 				return IntC(0)
